@@ -495,6 +495,10 @@ func negatives(g *gen.Gen) []Req {
 		Req{URI: "/loc/facts/query", Params: map[string]interface{}{"location": "plain", "query": nil}, Neg: "typed:the query parameter is null"},
 		Req{URI: "/loc/rules/add", Params: map[string]interface{}{"location": "plain", "rule": nil, "id": "nullrule"}, Neg: "typed:the rule parameter is null"},
 		Req{URI: "/loc/facts/replace", Params: map[string]interface{}{"location": "plain", "pattern": map[string]interface{}{"a": "zzz"}, "fact": nil}, Neg: "typed:the fact parameter is null"},
+		// a switch that is neither true nor false
+		Req{URI: "/loc/facts/search", Params: map[string]interface{}{"location": "plain", "pattern": map[string]interface{}{"a": "?x"}, "inherited": "yes"}, Neg: "the inherited parameter is not a boolean (yes)"},
+		Req{URI: "/loc/facts/search", Params: map[string]interface{}{"location": "plain", "pattern": map[string]interface{}{"a": "?x"}, "take": "1"}, Neg: "the take parameter is not a boolean (1)"},
+		Req{URI: "/loc/rules/list", Params: map[string]interface{}{"location": "plain", "inherited": "t"}, Neg: "the inherited parameter is not a boolean (t)"},
 		Req{URI: "/loc/events/retry", Prep: "throwing-rule", Params: map[string]interface{}{"location": "plain", "work": `{"event":{"e":"boom"}}`}, Neg: "operation fails: the work reaches a rule whose condition throws"},
 		Req{URI: "/loc/events/ingest", Prep: "throwing-rule", Params: map[string]interface{}{"location": "plain", "event": map[string]interface{}{"e": "boom"}}, Neg: "operation fails: the event reaches a rule whose condition throws"},
 		Req{URI: "/loc/events/retry", Params: map[string]interface{}{"location": "plain"}, Neg: "required parameter work missing"},
